@@ -3,11 +3,13 @@ package c01
 import (
 	"encoding/json"
 	"fmt"
+	"github.com/GuanceCloud/platypus/pkg/inimpl/guancecloud/input"
 	"math"
 	"os"
 	"path/filepath"
 	"strings"
 	"testing"
+	"time"
 	"unicode/utf8"
 
 	"pgregory.net/rapid"
@@ -126,7 +128,19 @@ func runCase(t rk.Failer, slot string, c *sem.Case, hostile bool, key string, la
 		os.Stdout = devnull // printf() output
 	}
 	evid.Current(slot, mkReplay(c)) // a fatal error (stack overflow) kills the process: the driver attributes it to this case
-	io := sem.RunV1(c, 20000)
+	// the run must come back: a run still going after 60 s (the signal fires after 20000 polls) has not returned control
+	var io sem.ImplOut
+	done := make(chan struct{})
+	go func() {
+		defer close(done)
+		io = sem.RunV1(c, 20000)
+	}()
+	select {
+	case <-done:
+	case <-time.After(60 * time.Second):
+		os.Stdout = old
+		rk.Fail(t, slot, mkReplay(c), "Script.Run has not returned after 60 s (the exit signal has been true since its 20000th poll, exit() ends a run)\nscript:\n%s", c.Texts[c.Root])
+	}
 	evid.ClearCurrent()
 	os.Stdout = old
 	if io.Crash != nil {
@@ -548,6 +562,59 @@ func TestPointOpSequences(t *testing.T) {
 	})
 }
 
+// TestReinitialisedPointKinds: a host that keeps one Point object and initialises it again for every record (without
+// handing it back to the pool), with field values of every Go kind - also kinds the point does not index: scripts
+// that look at such keys in type-directed ways return, whatever the same key held in the record before.
+func TestReinitialisedPointKinds(t *testing.T) {
+	records := []map[string]any{
+		{"k": "a string", "j": int64(1), "message": "hello 42"},
+		{"k": []byte("bytes"), "j": []string{"x"}, "message": []byte("<a/>")},
+		{"k": int64(7), "j": "now a string", "message": time.Second},
+		{"k": []any{int64(1)}, "j": map[string]any{"a": int64(1)}, "message": uint8(3)},
+		{"k": float32(1.5), "j": nil, "message": "again a string"},
+		{"k": struct{ A int }{1}, "j": int32(-5), "message": []string{"a", "b"}},
+		{"k": "str again", "j": 2.5},
+		{},
+	}
+	scripts := []string{
+		"n = len(k)\nm = len(j)\nprobe(\"len\", n, m)", "a = k[0:1]\nb = message[1:]", "d = load_json(k)\ne = load_json(message)", "for x in k { y = x }\nfor x in j { y = x }", "a = k + 1\nb = j + \"s\"",
+		"uppercase(k)\ntrim(message)\nreplace(j, \"a\", \"b\")", "cast(k, \"int\")\ncast(j, \"str\")\ncast(message, \"bool\")", "strfmt(out, \"%v|%s|%d\", k, j, message)", "grok(_, \"%{WORD:w}\")\nxml(k, \"/a\", o)\nsql_cover(j)",
+		"rename(k2, k)\nset_tag(j)\ndrop_key(message)\nadd_key(k)", "default_time(k)\ndatetime(j, \"ms\", \"RFC3339\")", "if k { a = 1 }\nif j == nil { b = 1 }\nc = k in [1, \"a string\"]\nd = get_key(k)",
+	}
+	call, check := sem.V1Tables()
+	n := 0
+	for si, src := range scripts {
+		s, lerr, crash := impl.Load1("main.p", src, call, check)
+		if lerr != nil || crash != nil {
+			t.Fatalf("harness: script %d does not load: %v %v", si, lerr, crash)
+		}
+		for start := 0; start < len(records); start++ {
+			pt := input.GetPoint()
+			var hist []string
+			for step := 0; step < 4; step++ {
+				rec := records[(start+step*3)%len(records)]
+				fields := map[string]any{}
+				for k, v := range rec {
+					fields[k] = v
+				}
+				var tags map[string]string
+				if step%2 == 0 {
+					tags = map[string]string{"t1": "tv"}
+				}
+				input.InitPt(pt, "m", tags, fields, impl.FixedTime())
+				hist = append(hist, fmt.Sprintf("InitPt(fields %v)", rec))
+				if _, crash := impl.RunV1(s, pt, &probe.Sig{FireAt: 20000}); crash != nil {
+					rk.Fail(t, "reinit-kinds", map[string]any{"script": src, "records": hist}, "Script.Run panicked on a point initialised for the %d. time: %s\n%s\nscript:\n%s\nrecords: %v", step+1, crash.Value, firstLines(crash.Stack, 14), src, hist)
+				}
+				n++
+			}
+			input.PutPoint(pt)
+			evid.Case(fmt.Sprintf("reinitkinds/%d/%d", si, start), true, "reinitialised-point-kinds")
+		}
+	}
+	evid.Exhaustive("type-directed script x start record: four records of other Go kinds on one Point object", n)
+}
+
 func TestFixedHostile(t *testing.T) {
 	progs := []string{
 		"a = [1,2,3]\nb = a[2:1]", "inf2 = 1.0e308 * 10.0\nadd_key(k, [1, inf2])\nn = len(k)", "add_key(k, {\"a\": nan})\nx = k[0:1]", "l = [1,2,3]\nx = l[3]", "l = [1,2,3]\nl[3] = 1", "l = [1,2,3]\nx = l[-4]", "l = []\nx = l[0]", "l = [[1]]\nl[0][1] += 1", "m = {\"k\": [1]}\nx = m[\"k\"][1]", "x = \"abc\"[1:3:9223372036854775807]", ".[0]", "a = .[0] + 1", ".[0] = 1", "a.b", "a = a.b", "l = [1]\nx = l[-9223372036854775807 - 1]",
@@ -561,6 +628,8 @@ func TestFixedHostile(t *testing.T) {
 		"datetime(f1, \"S\", \"RFC3339\")", "datetime(f1, \"MS\", \"ANSIC\")", "datetime(message, \"Ms\", \"RFC3339\")\ndatetime(a, \"mS\", \"RFC822\")", "datetime(f1, \"\", \"\")",
 		"inf2 = 1.0e308 * 10.0\nadd_key(k, inf2 - inf2)\ncast(k, \"int\")\ncast(k, \"str\")\ncast(k, \"bool\")", "cast(message, \"int\")\ncast(f1, \"int\")\ncast(a, \"int\")", "nn = nan\nadd_key(k, nn)\ncast(k, \"int\")\nx = nn <= 1\ny = inf - inf",
 		"z = 0\nfor a in [[1,2]] { for b in a { c = b / z } }", "l1 = [1]\nfor a in \"ab\" { for b in {\"k\": 1} { if true { c = l1[5] } } }", "for a in [1] { if true { for b in [2] { for c in \"x\" { d = 1 + \"s\" } } } }",
+		"for ;; exit() { }\nadd_key(after, 1)", "for i = 0; i < 10; exit() { }", "for ; true; { }", "for ;; { }", "for x = 0; ; x += 1 { }", "for ;; { if false { } }", "for ;; { if true { } else { x = 1 } }",
+		"for i = 0; i < 3; i = i + 1 { }\nfor ;; exit() { if false { x = 1 } }", "if true { for ;; exit() { } }\nadd_key(after, 1)",
 		"a = 1\na += \"s\"", "a = nil\na -= 1", "u %= 0 - 0", "l = [0]\nl[0] /= l[0]", "set_measurement(message, true)\nset_measurement(a.b, true)\nset_measurement(1 + 1)",
 	}
 	points := []map[string]any{{}, {"message": "NaN", "a": math.NaN(), "f1": math.Inf(-1), "k1": "-Infinity"}, {"message": "str", "a": int64(5), "f1": 2.5}, {"message": "hello 42", "f1": int64(1600000000)}, {"message": int64(5), "f1": "2021-05-27 06:54:14.760 UTC", "a": nil}, {"message": "\xff<a><b id=\"1\"/></a>", "k1": 1.5}}
